@@ -549,6 +549,16 @@ class Translator:
                     walk(s.body), walk(s.orelse)
                 elif isinstance(s, (ast.For, ast.While)):
                     walk(s.body)
+                elif isinstance(s, ast.Try):        # s_Try: the receiver's state is rebound, every branch may assign
+                    for st in s.body:
+                        if isinstance(st, ast.Assign) and isinstance(st.value, ast.Call) and _dotted(st.value.func) in self.fn.obj_calls:
+                            for d in self.fn.obj_calls[_dotted(st.value.func)][2]:
+                                if d not in out:
+                                    out.append(d)
+                    walk(s.body)
+                    for h in s.handlers:
+                        walk(h.body)
+                    walk(s.orelse)
         walk(stmts)
         return out
 
@@ -560,6 +570,8 @@ class Translator:
             if isinstance(s, ast.If) and (Translator.escapes(s.body, loop) or Translator.escapes(s.orelse, loop)):
                 return True
             if isinstance(s, (ast.For, ast.While)) and Translator.escapes(s.body, True):
+                return True
+            if isinstance(s, ast.Try):          # s_Try ends in a match whose last arm leaves the function (the error propagates)
                 return True
         return False
 
